@@ -576,7 +576,7 @@ def build():
   return Property(
     'C06', units,
     bounded=[Bounded('C06/ring/compat_disruption_history', 'replay/c06_ring.py', ['--tier', 'quick'], ['--tier', 'thorough'],
-                     'real ConsistentHashRing vs /verif/spec/ring_spec.py: destination lists of 1,2,3,5 (quick) / 1..8 (thorough) nodes incl. several instances per server, both hash types, ring contents and the owner of ALL 65536 positions, FNV known-answer vectors, preference lists; one-node add/remove at every 257th (quick) / 16th (thorough) position; random add/remove histories of 2 (quick) / 5 (thorough) operations against a fresh ring',
+                     'real ConsistentHashRing vs /verif/spec/ring_spec.py: destination lists of 1,2,3,5 (quick) / 1..8 (thorough) nodes incl. several instances per server and destinations without an instance name (None), in configured, reversed and random order, both hash types, ring contents and the owner of ALL 65536 positions, FNV known-answer vectors, preference lists; one-node add/remove at every 257th (quick) / 16th (thorough) position; random add/remove histories of 2 (quick) / 5 (thorough) operations against a fresh ring',
                      "the ring as a whole (all replicas of all nodes through __init__) against the published algorithm, and history independence, are whole-history statements; md5 / UTF-8 are library functions; add_node's per-call contract is discharged")],
     findings_witness={'c06-history-collision-bump': kf_witness},
     trusted_base=['A-ENGINE', 'A-SMT', 'A-LIB(bisect_left, comprehension filter, md5, utf-8)'],
